@@ -168,6 +168,8 @@ def process_function(res, rep, contract, repo, findings, opts):
             if contract.build:
                 spec['args'] = args
             path = obligation_file(pid, name)
+            if os.environ.get('PYVC_REPLAY_DIR'):
+                path = os.path.join(os.environ['PYVC_REPLAY_DIR'], os.path.relpath(path, 'replay'))
             os.makedirs(os.path.join(VERIF, os.path.dirname(path)), exist_ok=True)
             full = os.path.join(VERIF, path)
             json.dump(spec, open(full, 'w'), indent=1, default=str)
@@ -230,8 +232,9 @@ def write_evidence(res, level, wall, checker_cmd, explanation=''):
         'assumptions': sorted(res.assumptions | res.trusted),
     }
     ev['coverage'].update(res.extra)
-    os.makedirs(os.path.join(VERIF, 'evidence'), exist_ok=True)
-    json.dump(ev, open(os.path.join(VERIF, 'evidence', res.pid + '.json'), 'w'), indent=1, default=str)
+    evdir = os.environ.get('PYVC_EVIDENCE_DIR') or os.path.join(VERIF, 'evidence')
+    os.makedirs(evdir, exist_ok=True)
+    json.dump(ev, open(os.path.join(evdir, res.pid + '.json'), 'w'), indent=1, default=str)
     return ev
 
 
